@@ -2,6 +2,6 @@ import sys,os
 sys.path.insert(0,os.path.dirname(os.path.dirname(os.path.abspath(__file__))))
 from jobs_lib import vf,blk,other
 def jobs(tier):
-    return vf(tier,'C03')
+    return vf(tier,'C03')+blk(tier,lambda j:j.name.startswith('blockin-step'))[:2]+__import__('jobs_lib').lap(tier)[:2]
 CLAIM={'text':'Per-function bounded model checking of vorbisfile from arbitrary handle states satisfying the representation invariant, callees cut to contract stubs that assert their preconditions: open/clear, the I/O leaf functions, backward page search (termination by recurrence check), packet fetch, page seek, sample seek, half-rate toggle, cross-lap argument plumbing.',
  'note':'Trusted: libogg framing and the libvorbis decode API as nondeterministic contract stubs (harness/vf/vf_env.h), callbacks nondeterministic with fault injection. Per-function (not whole-program) composition; <=3 links, <=4-6 framing events per call, <=3 pages per link. Not yet covered: _fetch_headers, _bisect_forward_serialno/_open_seekable2 (chain discovery), ov_raw_seek scan loop, ov_read_float, info accessors, _ov_getlap/_ov_splice bodies.'}
